@@ -58,6 +58,15 @@ def main():
     w = max(len(r[0]) for r in rows) if rows else 4
     for r in rows:
         print("%-*s  %-4s  %-8s  %s" % (w, r[0], r[1], r[2], r[3]))
+    if not args:    # full run: record the table
+        with open(os.path.join(V, "seeded", "RESULTS.md"), "w") as f:
+            f.write("# Seeded breaking changes vs. the registered checks (%s tier)\n\n" % tier)
+            f.write("Produced by `python3 tools/run_seeded.py`: each patch applied to a scratch copy of /repo, the check run with "
+                    "`ZIX_REPO=<copy>`.\n\n| change | property | needs to manifest | verdict | how |\n|---|---|---|---|---|\n")
+            for r in rows:
+                meta = json.load(open(os.path.join(V, "seeded", r[0], "meta.json")))
+                f.write("| %s | %s | %s | %s | %s |\n" % (r[0], r[1], meta.get("needs_to_manifest", "").replace("|", "/"),
+                                                         r[2], r[3].replace("|", "/")[:120]))
     return 0 if all(r[2] == "caught" for r in rows) else 1
 
 
